@@ -310,6 +310,35 @@ ITEMS = location_types() + budget_types() + error_types() + [
                     && !(self.cfg.no_schema && rest0[0]->Scalar_style is Plain && sp_looks_non_string(encode_utf8(rest0[0]->Scalar_value@))) })'''),
         ],
         canaries=['C06:a_char_target_gets_the_single_character_of_the_scalar_and_nothing_else_is_a_char']),
+    # deserialize_str (borrowed targets, C09 / C06): up to the point where the text is lent; the owned fallback that follows
+    # (visit_string and the error-message conversion) is replaced by a shim
+    dict(src=D, path=YD + 'fn deserialize_str', id='YamlDeserializer::deserialize_str#until_lent',
+        impl_header="impl<'de, 'e> YamlDeserializer<'de, 'e>", props=['C09', 'C06', 'C05', 'C01'],
+        fragment=r'let location = match self\.ev\.peek\(\)\? \{.*?if let Cow::Borrowed\(b\) = cow \{\s*return visitor\.visit_borrowed_str\(b\);\s*\}', fragment_flags='S',
+        wrapper='fn deserialize_str_until_lent(mut self, visitor: Vis) -> Result<VisVal, Error> { {FRAG} ty_owned_fallback(visitor, cow, location) }',
+        pre_rewrites=[(r'if let Cow::Borrowed\(b\) = cow \{\s*return visitor\.visit_borrowed_str\(b\);\s*\}', 'if cowstr_is_borrowed(&cow) { return ty_visit_borrowed_str(visitor, cow.as_ref()); }', 1, 'R8')],
+        rewrites=[(r'tag == &SfTag::(\w+)', r'*tag == SfTag::\1', None, 'R15'), (r'tag != &SfTag::(\w+)', r'*tag != SfTag::\1', None, 'R15'),
+                  (r'scalar_is_nullish\(value, style\)', 'scalar_is_nullish(value.as_ref(), style)', None, 'R15'),
+                  (r'maybe_not_string\(value, style\)', 'maybe_not_string(value.as_ref(), style)', None, 'R15'),
+                  (r'Error::quoting_required\(&value\)', 'Error::quoting_required(value.as_str())', None, 'R15'),
+                  (r'return this\.deserialize_string\(visitor\);', 'return this.deserialize_string(visitor);', None, 'R9')],
+        ensures=[
+            ('C09:a_borrowed_string_target_is_handed_exactly_what_an_owned_string_target_is_handed', '''({ let rest0 = old(self.ev).rest();
+                r is Ok && rest0.len() > 0 && rest0[0] is Scalar ==> ({
+                    let tag = rest0[0]->Scalar_tag; let value = rest0[0]->Scalar_value;
+                    if tag is Binary && !self.cfg.ignore_binary_tag_for_string {
+                        exists|t: Seq<char>| b64_decode(b64_strip_ws(encode_utf8(value@))) == Some(encode_utf8(t)) && r == #[trigger] vis_str(visitor, t)
+                    } else { sp_string_tag_ok(tag, self.cfg.ignore_binary_tag_for_string) && r == vis_str(visitor, value@) } }) })'''),
+            ('C06:null_forms_and_in_no_schema_mode_number_like_plain_text_are_refused_unless_tagged_str', '''({ let rest0 = old(self.ev).rest();
+                r is Ok && rest0.len() > 0 && rest0[0] is Scalar && !(rest0[0]->Scalar_tag is String) ==>
+                    !(rest0[0]->Scalar_tag is Null) && !unit_scalar(rest0[0])
+                    && !(self.cfg.no_schema && rest0[0]->Scalar_style is Plain && sp_looks_non_string(encode_utf8(rest0[0]->Scalar_value@))) })'''),
+            ('C05:only_a_scalar_is_a_string', 'r is Ok ==> old(self.ev).rest().len() > 0 && old(self.ev).rest()[0] is Scalar'),
+        ],
+        proofs=[dict(at='start', ghost=True, text='let ghost rest0 = self.ev.rest();'),
+                dict(before_re=r'return Err\(Error::NullIntoString \{ location: loc \}\);', label='C06:only_a_null_tag_or_a_plain_null_like_scalar_not_tagged_str_is_refused_as_null',
+                     text='assert(rest0.len() > 0 && rest0[0] is Scalar && !(rest0[0]->Scalar_tag is String) && (rest0[0]->Scalar_tag is Null || unit_scalar(rest0[0])));')],
+        canaries=['C09:a_borrowed_string_target_is_handed_exactly_what_an_owned_string_target_is_handed']),
     dict(src=D, path=YD + 'fn deserialize_f64', id='YamlDeserializer::deserialize_f64',
         impl_header="impl<'de, 'e> YamlDeserializer<'de, 'e>", props=['C06', 'C19', 'C05', 'C01'],
         pre_rewrites=[(r"fn deserialize_f64<V: Visitor<'de>>\(mut self, visitor: V\) -> Result<V::Value, Self::Error>",
